@@ -174,3 +174,23 @@ def strategy(tier):
         "reach": st.sampled_from(["single", "multi"]), "extra": st.integers(0, 3),
         "logger": st.sampled_from(["default", "default", "custom", "quiet", "custom-debug"]),
         "after": sized_lists(after, 1, 12)})
+
+
+EXHAUSTIVE_DOMAIN = ("1..4 systems over priorities {0,1}^n x every completer position x completion timestep 0..2 x {single steps, "
+                     "inside execute(n)} plus completion from outside, each followed by the fixed request sequence "
+                     "[step, exec_throw, stepn 3, exec, add, step, remove, exec_throw, complete, step]; default and quiet logger")
+
+
+def exhaustive(tier):
+    import itertools
+    after = [{"op": "step"}, {"op": "exec_throw"}, {"op": "stepn", "n": 3}, {"op": "exec"}, {"op": "add", "prio": 3}, {"op": "step"},
+             {"op": "remove", "i": 0}, {"op": "exec_throw"}, {"op": "complete"}, {"op": "step"}]
+    for n in range(1, 5):
+        for prios in itertools.product((0, 1), repeat=n):
+            for t in range(3):
+                for lg in ("default", "quiet"):
+                    yield {"systems": list(prios), "completer": 0, "t": t, "outside": True, "reach": "single", "extra": 0, "logger": lg, "after": after}
+                    for ci in range(n):
+                        for reach in ("single", "multi"):
+                            yield {"systems": list(prios), "completer": ci, "t": t, "outside": False, "reach": reach, "extra": 2,
+                                   "logger": lg, "after": after}
